@@ -1424,8 +1424,27 @@ fn fval(base: u64, r: &RawFVal) -> Fl {
 }
 
 /// (kind, value) related to x
+/// exponent arithmetic of the generator never leaves the isize range
+fn ex(e: i128) -> i64 {
+    e.clamp(i64::MIN as i128, i64::MAX as i128) as i64
+}
+
+/// like `Fl::normalised`, with a clamped exponent
+fn norm(v: &Fl, base: u64) -> Fl {
+    if v.exp.unsigned_abs() < 1 << 62 {
+        return v.normalised(base);
+    }
+    let t = Fl { sig: v.sig.clone(), exp: 0 }.normalised(base);
+    if t.sig.is_zero() {
+        t
+    } else {
+        Fl { sig: t.sig, exp: ex(v.exp as i128 + t.exp as i128) }
+    }
+}
+
 fn related_f(base: u64, x: &Fl, rel: u8, seed: u64, other: &Fl) -> (u8, Fl) {
     let s = x.sig.big();
+    let xe = x.exp as i128;
     let d = x.digits(base) as i64;
     let b = BigInt::from(base);
     let one = if x.sig.neg { -BigInt::one() } else { BigInt::one() };
@@ -1433,36 +1452,36 @@ fn related_f(base: u64, x: &Fl, rel: u8, seed: u64, other: &Fl) -> (u8, Fl) {
         0..=6 => x.clone(),
         7 => fl_from(&(&s + 1), x.exp),
         8 => fl_from(&(&s - 1), x.exp),
-        9 => fl_from(&s, x.exp + 1),
-        10 => fl_from(&s, x.exp - 1),
+        9 => fl_from(&s, ex(xe + 1)),
+        10 => fl_from(&s, ex(xe - 1)),
         11 => fl_from(&-s, x.exp),
         // one more digit below
-        12 => fl_from(&(&s * &b + &one), x.exp - 1),
+        12 => fl_from(&(&s * &b + &one), ex(xe - 1)),
         // the power of the base just above |x|
-        13 => fl_from(&one, x.exp + d),
+        13 => fl_from(&one, ex(xe + d as i128)),
         // a difference far below the last digit
         14 => {
             let j = seed % 30 + 2;
-            fl_from(&(&s * BigInt::from(bpow(base, j)) + &one), x.exp - j as i64)
+            fl_from(&(&s * BigInt::from(bpow(base, j)) + &one), ex(xe - j as i128))
         }
         15 => other.clone(),
         // same magnitude class as x, other digits
         16 => {
             let od = other.digits(base) as i64;
-            Fl { sig: other.sig.clone(), exp: x.exp + d - od + (seed % 5) as i64 - 2 }
+            Fl { sig: other.sig.clone(), exp: ex(xe + (d - od + (seed % 5) as i64 - 2) as i128) }
         }
         // exponent gap relative to the number of digits (precision shortcut of cmp)
         17 => {
             let od = other.digits(base) as i64;
             let g = [od, od + 1, od + 2, od - 1, -d, -d - 1, -d - 2, 2 * od + 3][(seed % 8) as usize];
-            Fl { sig: other.sig.clone(), exp: x.exp + g }
+            Fl { sig: other.sig.clone(), exp: ex(xe + g as i128) }
         }
         18 => Fl { sig: Int::default(), exp: 0 },
         19 => return (1, Fl { sig: Int::default(), exp: 0 }),
         20 => return (2, Fl { sig: Int::default(), exp: 0 }),
         _ => x.clone(),
     };
-    (0, v.normalised(base))
+    (0, norm(&v, base))
 }
 
 type RawFOp = (u16, u8, bool, u8, RawFVal, i64, u8);
@@ -1474,8 +1493,17 @@ fn build_fop(base: u64, kind: u8, v: Fl, raw: &RawFOp) -> FOp {
     let route = pick(F_ROUTES, *ridx);
     let margin = [0u32, 0, 1, 2, 5, 20, 100, 1][*msel as usize];
     let mut y = fval(base, &(yraw.0.min(12), yraw.1, yraw.2, yraw.3, 0));
-    y.exp = v.exp + dy;
+    y.exp = ex(v.exp as i128 + *dy as i128);
     let mut op = FOp { kind, v, margin, unlimited: *unlimited, route, pad: *pad as u32, y, alt: *alt };
+    if op.v.exp.unsigned_abs() > 1 << 62 {
+        // only routes that do no exponent arithmetic of their own
+        if !matches!(op.route, FR::FromRepr | FR::Padded | FR::WithRounding | FR::FClone | FR::FCloneFrom | FR::FNegNeg | FR::WithPrecision) {
+            op.route = FR::FromRepr;
+        }
+        if op.v.exp < 0 {
+            op.pad = 0;
+        }
+    }
     if op.route != FR::FAddSub || kind != 0 {
         op.y = Fl { sig: Int::default(), exp: 0 };
     }
@@ -1487,7 +1515,15 @@ fn build_fop(base: u64, kind: u8, v: Fl, raw: &RawFOp) -> FOp {
 
 fn float_case(base: u64) -> impl Strategy<Value = FloatCase> {
     (raw_fval(), raw_fval(), (0u8..24, any::<u64>()), (0u8..24, any::<u64>(), any::<bool>()), raw_fop(), raw_fop(), raw_fop()).prop_map(move |(x0, ind, (r1, s1), (r2, s2, from0), o0, o1, o2)| {
-        let v0 = fval(base, &x0);
+        let mut v0 = fval(base, &x0);
+        // exponents next to the ends of the isize range (cmp adds precision / digit counts to them)
+        if !v0.sig.is_zero() {
+            match o0.6 % 32 {
+                0 => v0.exp = isize::MAX as i64 - (s1 % 300) as i64,
+                1 => v0.exp = isize::MIN as i64 + (s1 % 300) as i64,
+                _ => {}
+            }
+        }
         let other = fval(base, &ind);
         let (k1, v1) = related_f(base, &v0, r1, s1, &other);
         let (k2, v2) = related_f(base, if from0 || k1 != 0 { &v0 } else { &v1 }, r2, s2, &other);
@@ -1499,26 +1535,53 @@ fn float_case(base: u64) -> impl Strategy<Value = FloatCase> {
 #[derive(Clone, Debug)]
 enum FV {
     NegInf,
-    Fin(Sci),
+    /// normalised
+    Fin(Fl, u64),
     PosInf,
+}
+
+/// |a| against |b| for normalised values: by the position of the leading digit, then exactly
+fn fl_abs_cmp(a: &Fl, b: &Fl, base: u64) -> Ordering {
+    match (a.sig.is_zero(), b.sig.is_zero()) {
+        (true, true) => return Ordering::Equal,
+        (true, false) => return Ordering::Less,
+        (false, true) => return Ordering::Greater,
+        _ => {}
+    }
+    let (ta, tb) = (a.exp as i128 + a.digits(base) as i128, b.exp as i128 + b.digits(base) as i128);
+    if ta != tb {
+        return ta.cmp(&tb);
+    }
+    // same leading position: the exponents differ by less than the longer digit count
+    let m = a.exp.min(b.exp);
+    let l = a.sig.mag.big() * bpow(base, (a.exp - m) as u64);
+    let r = b.sig.mag.big() * bpow(base, (b.exp - m) as u64);
+    l.cmp(&r)
 }
 impl FV {
     fn rank(&self) -> i8 {
         match self {
             FV::NegInf => -1,
-            FV::Fin(_) => 0,
+            FV::Fin(..) => 0,
             FV::PosInf => 1,
         }
     }
     fn cmp(&self, o: &FV) -> Ordering {
         match (self, o) {
-            (FV::Fin(a), FV::Fin(b)) => a.cmp(b),
+            (FV::Fin(a, base), FV::Fin(b, _)) => {
+                let sg = |f: &Fl| if f.sig.is_zero() { 0 } else if f.sig.neg { -1 } else { 1 };
+                match sg(a).cmp(&sg(b)) {
+                    Ordering::Equal if sg(a) < 0 => fl_abs_cmp(b, a, *base),
+                    Ordering::Equal => fl_abs_cmp(a, b, *base),
+                    o => o,
+                }
+            }
             _ => self.rank().cmp(&o.rank()),
         }
     }
     fn abs_cmp(&self, o: &FV) -> Ordering {
         match (self, o) {
-            (FV::Fin(a), FV::Fin(b)) => a.abs().cmp(&b.abs()),
+            (FV::Fin(a, base), FV::Fin(b, _)) => fl_abs_cmp(a, b, *base),
             _ => self.rank().abs().cmp(&o.rank().abs()),
         }
     }
@@ -1526,7 +1589,7 @@ impl FV {
         match self {
             FV::NegInf => "-inf".into(),
             FV::PosInf => "+inf".into(),
-            FV::Fin(s) => s.show(),
+            FV::Fin(f, base) => f.sci(*base).show(),
         }
     }
 }
@@ -1573,7 +1636,27 @@ fn build_f<R: Round, O: Round, const B: Word>(op: &FOp, tr: &mut Tr, out: &mut O
     let alt = op.alt;
     if op.kind != 0 {
         let inf = || if op.kind == 1 { Repr::<B>::infinity() } else { Repr::<B>::neg_infinity() };
-        return match alt % 6 {
+        let opposite = || if op.kind == 1 { FBig::<R, B>::from_repr(Repr::<B>::neg_infinity(), ctx) } else { FBig::<R, B>::from_repr(Repr::<B>::infinity(), ctx) };
+        return match alt % 8 {
+            // sign operations on the opposite infinity (C05/float-sign-ops-ignore-infinity)
+            6 => {
+                if alt & 8 == 0 {
+                    -opposite()
+                } else {
+                    -&opposite()
+                }
+            }
+            7 => {
+                if op.kind == 1 {
+                    opposite().abs()
+                } else if alt & 8 == 0 {
+                    opposite() * Sign::Negative
+                } else {
+                    let mut t = opposite();
+                    t *= Sign::Negative;
+                    t
+                }
+            }
             0 => {
                 if op.kind == 1 {
                     FBig::<R, B>::INFINITY
@@ -1766,9 +1849,9 @@ fn fcheck_final<R: Round, const B: Word>(op: &FOp, f: &FBig<R, B>) -> Result<(),
     if op.kind != 0 {
         layout(&raw, &BigInt::zero())?;
         let ok = if op.kind == 1 { e > 0 } else { e < 0 };
-        return if ok { Ok(()) } else { Err(format!("infinity of kind {} stored with significand 0 and exponent {e}", op.kind)) };
+        return if ok { Ok(()) } else { Err(format!("infinity of kind {} ({}) stored with significand 0 and exponent {e}, i.e. as the opposite infinity", op.kind, if op.kind == 1 { "+inf" } else { "-inf" })) };
     }
-    let t = op.v.normalised(base);
+    let t = &op.v;
     layout(&raw, &t.sig.big()).map_err(|m| format!("significand (exponent {e}; normal form of the target is {}·{base}^{}): {m}", show_i(&t.sig.big()), t.exp))?;
     if e as i64 != t.exp {
         return Err(format!("exponent {e} with the significand of the normal form, whose exponent is {}", t.exp));
@@ -1781,7 +1864,7 @@ fn fcheck_final<R: Round, const B: Word>(op: &FOp, f: &FBig<R, B>) -> Result<(),
 }
 
 macro_rules! cross_pair {
-    ($out:ident, $ia:expr, $ra:expr, $ib:expr, $rb:expr, $xa:expr, $xb:expr, $va:expr, $vb:expr, $want:expr) => {{
+    ($out:ident, $ctx:ident, $cls:expr, $ia:expr, $ra:expr, $ib:expr, $rb:expr, $xa:expr, $xb:expr, $va:expr, $vb:expr, $want:expr) => {{
         let (xa, xb, want) = ($xa, $xb, $want);
         let r = catch(|| {
             let mut bad: Vec<String> = Vec::new();
@@ -1799,11 +1882,29 @@ macro_rules! cross_pair {
             }
             bad
         });
-        report(&mut $out, "FBig (different rounding-mode types)", $ia, $ra, $ib, $rb, $va, $vb, want, r);
+        freport(&mut $out, $ctx, $cls, "FBig (different rounding-mode types)", $ia, $ra, $ib, $rb, $va, $vb, want, r);
     }};
 }
 
-fn run_float<R1: ModeTag, R2: ModeTag, const B: Word>(c: &FloatCase, _ctx: &Ctx) -> Out {
+/// C05/float-cmp-exponent-overflow: repr_cmp_same_base (float/src/cmp.rs, cases 4 and 5) adds the
+/// precision resp. the digit estimate to an exponent with plain `+`
+fn is_exp_overflow_panic(m: &str) -> bool {
+    m.contains("attempt to add with overflow") && m.contains("float/src/cmp.rs")
+}
+
+fn freport(out: &mut Out, ctx: &Ctx, in_class: bool, ty: &str, ia: usize, ra: &str, ib: usize, rb: &str, va: &str, vb: &str, want: Ordering, r: Result<Vec<String>, String>) {
+    if let Err(m) = &r {
+        if in_class && is_exp_overflow_panic(m) {
+            // call: ==-independent ordering of two finite non-zero floats (cmp / partial_cmp / abs_cmp / Repr::cmp);
+            // input: exponent + max(precision, digits + 1) of an operand exceeds isize::MAX
+            ctx.known_or_fail(out, "C05/float-cmp-exponent-overflow", || format!("{ty}: comparing operand {ia} ({ra}) = {va} with operand {ib} ({rb}) = {vb} panicked: {}", normalise(m)));
+            return;
+        }
+    }
+    report(out, ty, ia, ra, ib, rb, va, vb, want, r);
+}
+
+fn run_float<R1: ModeTag, R2: ModeTag, const B: Word>(c: &FloatCase, ctx: &Ctx) -> Out {
     let mut out = Out::new();
     let base = B as u64;
     if c.ops.len() < 3 {
@@ -1812,6 +1913,14 @@ fn run_float<R1: ModeTag, R2: ModeTag, const B: Word>(c: &FloatCase, _ctx: &Ctx)
     }
     let ops = &c.ops[..3];
     for op in ops {
+        let nv = norm(&op.v, base);
+        if op.kind == 0 && (nv.sig.big() != op.v.sig.big() || (!nv.sig.is_zero() && nv.exp != op.v.exp)) {
+            out.inconclusive("replayed float case whose target value is not in normal form");
+            return out;
+        }
+        if op.v.exp.unsigned_abs() > 1 << 62 {
+            out.label("exponent next to the end of the isize range");
+        }
         out.label(fr_label(op.route));
         out.label(match op.kind {
             0 if op.v.sig.is_zero() => "value:zero",
@@ -1835,6 +1944,11 @@ fn run_float<R1: ModeTag, R2: ModeTag, const B: Word>(c: &FloatCase, _ctx: &Ctx)
                 Ok(f) => {
                     let err = tr.err.or_else(|| fcheck_final(op, &f).err());
                     if let Some(e) = err {
+                        if op.kind != 0 && op.alt % 8 >= 6 && e.starts_with("infinity of kind") {
+                            // call: Neg / Abs / Mul<Sign> / MulAssign<Sign> for FBig; input: an infinity
+                            ctx.known_or_fail(&mut out, "C05/float-sign-ops-ignore-infinity", || format!("FBig<{}, {base}> operand {} (sign operation on the opposite infinity, alt {}): {e}", <$R as ModeTag>::MODE.name(), $idx, op.alt));
+                            return out;
+                        }
                         out.fail(format!("FBig<{}, {base}> operand {} via {} (precision {}, pad {}, alt {}): {e}", <$R as ModeTag>::MODE.name(), $idx, fr_label(op.route), f.precision(), op.pad, op.alt));
                         return out;
                     }
@@ -1849,7 +1963,7 @@ fn run_float<R1: ModeTag, R2: ModeTag, const B: Word>(c: &FloatCase, _ctx: &Ctx)
     let vals: Vec<FV> = ops
         .iter()
         .map(|o| match o.kind {
-            0 => FV::Fin(o.v.sci(base)),
+            0 => FV::Fin(o.v.clone(), base),
             1 => FV::PosInf,
             _ => FV::NegInf,
         })
@@ -1857,6 +1971,9 @@ fn run_float<R1: ModeTag, R2: ModeTag, const B: Word>(c: &FloatCase, _ctx: &Ctx)
     let shows: Vec<String> = vals.iter().map(|v| v.show()).collect();
     let same: [FBig<R1, B>; 3] = [x0.clone(), x1.clone().with_rounding::<R1>(), x2.clone()];
     let precs = [x0.precision(), x1.precision(), x2.precision()];
+    // input class of C05/float-cmp-exponent-overflow for the pair (a, b)
+    let near_max = |k: usize| ops[k].kind == 0 && !ops[k].v.sig.is_zero() && ops[k].v.exp as i128 + precs[k].max(ops[k].v.digits(base) as usize + 1) as i128 > isize::MAX as i128;
+    let in_class = |a: usize, b: usize| ops[a].kind == 0 && ops[b].kind == 0 && !ops[a].v.sig.is_zero() && !ops[b].v.sig.is_zero() && (near_max(a) || near_max(b));
     for a in 0..3 {
         for b in 0..3 {
             let want = vals[a].cmp(&vals[b]);
@@ -1870,13 +1987,12 @@ fn run_float<R1: ModeTag, R2: ModeTag, const B: Word>(c: &FloatCase, _ctx: &Ctx)
                 if precs[a] != precs[b] || ops[a].route != ops[b].route {
                     out.nontrivial(true);
                 }
-                if let (FV::Fin(_), FV::Fin(_)) = (&vals[a], &vals[b]) {
-                    let (na, nb) = (ops[a].v.normalised(base), ops[b].v.normalised(base));
+                if let (FV::Fin(na, _), FV::Fin(nb, _)) = (&vals[a], &vals[b]) {
                     if !na.sig.is_zero() && !nb.sig.is_zero() && na.sig.neg == nb.sig.neg {
-                        let (ea, eb) = (na.exp, nb.exp);
-                        if precs[a] != 0 && precs[b] != 0 && (ea > eb + precs[b] as i64 || eb > ea + precs[a] as i64) {
+                        let (ea, eb) = (na.exp as i128, nb.exp as i128);
+                        if precs[a] != 0 && precs[b] != 0 && (ea > eb + precs[b] as i128 || eb > ea + precs[a] as i128) {
                             out.label("cmp:decided by the exponent/precision shortcut");
-                        } else if ea > eb + nb.digits(base) as i64 + 1 || eb > ea + na.digits(base) as i64 + 1 {
+                        } else if ea > eb + nb.digits(base) as i128 + 1 || eb > ea + na.digits(base) as i128 + 1 {
                             out.label("cmp:decided by the exponent/digits shortcut");
                         } else {
                             out.label("cmp:significands aligned and compared");
@@ -1886,7 +2002,7 @@ fn run_float<R1: ModeTag, R2: ModeTag, const B: Word>(c: &FloatCase, _ctx: &Ctx)
             }
             let (x, y) = (&same[a], &same[b]);
             let r = catch(|| suite::<FBig<R1, B>>(x, y, want, wabs, None));
-            report(&mut out, "FBig", a, ra, b, rb, &shows[a], &shows[b], want, r);
+            freport(&mut out, ctx, in_class(a, b), "FBig", a, ra, b, rb, &shows[a], &shows[b], want, r);
             let r = catch(|| {
                 let (p, q) = (x.repr(), y.repr());
                 let mut bad = Vec::new();
@@ -1900,17 +2016,17 @@ fn run_float<R1: ModeTag, R2: ModeTag, const B: Word>(c: &FloatCase, _ctx: &Ctx)
                 }
                 bad
             });
-            report(&mut out, "float Repr", a, ra, b, rb, &shows[a], &shows[b], want, r);
+            freport(&mut out, ctx, in_class(a, b), "float Repr", a, ra, b, rb, &shows[a], &shows[b], want, r);
         }
     }
     // the original types: R1 against R2 in both directions
     let w01 = vals[0].cmp(&vals[1]);
     let w21 = vals[2].cmp(&vals[1]);
     let (l0, l1, l2) = (fr_label(ops[0].route), fr_label(ops[1].route), fr_label(ops[2].route));
-    cross_pair!(out, 0, l0, 1, l1, &x0, &x1, &shows[0], &shows[1], w01);
-    cross_pair!(out, 1, l1, 0, l0, &x1, &x0, &shows[1], &shows[0], w01.reverse());
-    cross_pair!(out, 2, l2, 1, l1, &x2, &x1, &shows[2], &shows[1], w21);
-    cross_pair!(out, 1, l1, 2, l2, &x1, &x2, &shows[1], &shows[2], w21.reverse());
+    cross_pair!(out, ctx, in_class(0, 1), 0, l0, 1, l1, &x0, &x1, &shows[0], &shows[1], w01);
+    cross_pair!(out, ctx, in_class(0, 1), 1, l1, 0, l0, &x1, &x0, &shows[1], &shows[0], w01.reverse());
+    cross_pair!(out, ctx, in_class(1, 2), 2, l2, 1, l1, &x2, &x1, &shows[2], &shows[1], w21);
+    cross_pair!(out, ctx, in_class(1, 2), 1, l1, 2, l2, &x1, &x2, &shows[1], &shows[2], w21.reverse());
     out
 }
 
